@@ -29,9 +29,12 @@ RULE = ("EXACT cells on dyadic quadratic joints (2-4 blocks, dims 1-2, cycles, i
         "shuffled, strategy dict order != par_names, density declaration order varied): 15 HybridGibbs + 9 legacy base cells, "
         "num_sampling_steps lattice {missing,1,2,3}^2, legacy tuple-group lattice, two-parent priors, scale 2^-40..2^40, fine-move "
         "2^-20/-30/-36, partial-move, initial points default/array/plain number/zero/int64/binary32/strided/read-only, reuse of a joint "
-        "object by a second sampler, sample(0), default optional arguments; REAL cells: 15 HybridGibbs (Conjugate and zero-noise "
-        "LinearRTO draws computed by the model; MH/CWMH/MALA/ULA/NUTS cached logd+gradient in the model state; PCN, UGLA, ConjugateApprox, "
-        "RegularizedLinearRTO, Direct opaque) + 5 legacy (LinearRTO, Conjugate tuple keys adjacent/separated, NUTS, MH), x on scales "
+        "object by a second sampler, sample(0), warmup(0), warmup(1), num_sampling_steps with 0 / missing / numpy integers, a synthetic "
+        "sampler that precomputes from its target when initialised; REAL cells: 21 HybridGibbs (Conjugate, LinearRTO [zero noise and "
+        "scripted normals], UGLA and RegularizedLinearRTO [non-negative least squares] draws computed by the model from the CURRENT other "
+        "blocks; precomputed systems / Gamma parameters of every precomputing class compared with independent closed forms; "
+        "MH/CWMH/MALA/ULA/NUTS cached logd+gradient in the model state; PCN, ConjugateApprox, Direct opaque in Coq) + 5 legacy "
+        "(LinearRTO and Conjugate draws computed by the model, tuple keys adjacent/separated; NUTS, MH opaque), x on scales "
         "2^-40..2^20; 2 fixed witnesses. Per run one case for the whole trace, plus one for cached evaluations and one for get_samples. "
         "distinct = distinct (target, assignment, script/seed, call sequence, check); trivial = the 4 oracle-only cache probes and the "
         "Python-only cache cases of the REAL cells")
@@ -1138,11 +1141,14 @@ def oracle_legacy(meta, obs):
         exp_samples = (have_samples or []) + new_sw[nb:]
         if call["samples"] != exp_samples:
             return "samples after the call are not the earlier samples followed by the new sweeps", "Gibbs._store_samples|not-post-sweep"
-        if call["warm"] != new_sw[:nb]:
-            return "warm-up samples are not the warm-up sweeps", "Gibbs._store_samples|not-post-sweep"
+        # the warm-up record is that of the call that ran the warm-up; a later call (nb = 0) keeps it (/repo a931127; before
+        # that repair - C14's finding legacy.Gibbs.sample|warmup-chain-dropped-by-later-call - it was rebound to an empty array)
+        exp_warm = have_warm if have_warm is not None else new_sw[:nb]
+        if call["warm"] != exp_warm:
+            return "warm-up samples are not the warm-up sweeps recorded by the call that ran the warm-up", "Gibbs._store_samples|not-post-sweep"
         if not call["ret_ok"] or not call["shapes_ok"]:
             return "returned Samples differ from the stored arrays", "Gibbs._convert_to_Samples"
-        have_samples, have_warm = exp_samples, new_sw[:nb]
+        have_samples, have_warm = exp_samples, exp_warm
     if pos != len(evs):
         return "%d transitions more than sweeps x blocks" % (len(evs) - pos), "Gibbs.step|visits"
     for i_, v in (obs.get("inits_after") or {}).items():
@@ -1462,7 +1468,11 @@ def real_sampler(meta, i, tr):
         # CGLS divide by round-off and blow up -- seen with maxit=200, tol=1e-14): the zero-noise draw is then the conditional mean
         kw["maxit"], kw["tol"] = len(ip) + 3, 1e-10
     if meta["assign"][i] == "RegularizedLinearRTO":
-        kw["maxit"], kw["abstol"] = 3000, 1e-13
+        # plain projected-gradient iteration (adaptive=False), run to convergence: the sampler's automatic step size is
+        # 0.99 / (randomised ESTIMATE of |M|_2)^2, which exceeds 1/|M|_2^2 when the two largest singular values are close (seen:
+        # 1.05 / |M|^2); the accelerated iteration (adaptive=True) then diverges slowly (1e98 after 3000 iterations, 4e-4 relative
+        # error after the default 100), the plain one converges for every step below 2 / |M|^2.  Not a Gibbs matter: reported as an observation.
+        kw["maxit"], kw["abstol"], kw["adaptive"] = 20000, 1e-13 * g, False
     smp = W(**kw)
     smp._tr, smp._blk = tr, i
     smp._es = list(meta.get("ens", [[]] * len(meta["assign"]))[i])
@@ -2201,6 +2211,23 @@ def make_cases(meta, fresh):
     return out
 
 
+def spread_heavy(cases):
+    """the cases of the real cells take 1-2.5 s each in Coq (exact rational arithmetic on binary64 data), all others a few ms:
+    distribute them evenly over the case list, so that no shard of 400 collects hundreds of them (a shard has a 600 s budget)"""
+    heavy = [c for c in cases if c.meta.get("iface") in ("real", "legacy-real") and not c.trivial]
+    light = [c for c in cases if not (c.meta.get("iface") in ("real", "legacy-real") and not c.trivial)]
+    if not heavy or not light:
+        return cases
+    out, hi = [], 0
+    for li, c in enumerate(light):
+        # before light case li, emit the heavy cases whose slot (hi + 1) / (len(heavy) + 1) has been reached
+        while hi < len(heavy) and (hi + 1) * (len(light) + 1) <= (li + 1) * (len(heavy) + 1):
+            out.append(heavy[hi])
+            hi += 1
+        out.append(c)
+    return out + heavy[hi:]
+
+
 def run(ctx):
     rng = ctx.rng
     classes()
@@ -2255,6 +2282,7 @@ def run(ctx):
         d = cache_probe_real(which)
         cases.append(Case(expr="true", meta={"iface": "hybrid-real", "which": which}, cell="oracle-only/cache/" + which, trivial=True,
                           kind="DECISION", impl_fail=d, signature=(SIG_STALE % which) if d else ""))
+    cases = spread_heavy(cases)
     return Result(cases=cases, rule=RULE, extra={"model_variant": {"fresh_cache": fresh}},
                   assumptions=["block samplers other than the recording ones, experimental/legacy MH and Direct are not modelled: for MALA/ULA/CWMH/PCN only the "
                                "cache-consistency oracle runs (cells oracle-only/*, Coq term `true`)",
